@@ -33,7 +33,7 @@ VARIABLES
     cfg,        \* [workers, maxw (-1 = unlimited), du (0 = none), name]
     paces,      \* number of consultations of the pacer
     paceOK,     \* ... of those that did not answer stop = hits released or being released
-    wake,       \* wake[k] = instant before which the k-th released hit must not start
+    wake,       \* wake[k] = [lo, hi]: the k-th released hit must not start before lo and is due at hi (equal unless the pacer took time to answer)
     lastEl,     \* elapsed value of the last consultation
     pacerStop,  \* the pacer has answered stop
     targ,       \* number of targeter calls = hits started
@@ -81,7 +81,7 @@ PaceGuard(ev) ==
         /\ ev.elapsed = ev.t                \* measured from the attack's start
         /\ ev.elapsed >= lastEl
         /\ (cfg.du > 0 => ev.elapsed <= cfg.du)
-        /\ (paceOK > 0 => ev.t >= wake[paceOK])   \* it slept as long as told before asking again
+        /\ (paceOK > 0 => ev.t >= wake[paceOK].lo)   \* it slept as long as told before asking again
 
 PaceUpd(ev) ==
     /\ paces' = paces + 1
@@ -90,8 +90,10 @@ PaceUpd(ev) ==
        THEN /\ pacerStop' = TRUE
             /\ UNCHANGED <<paceOK, wake>>
        ELSE /\ paceOK' = paceOK + 1
-            \* the wait counts from the moment the pacer returned it (rt: logged by pacers that take time to answer)
-            /\ wake' = Append(wake, (IF "rt" \in DOMAIN ev THEN ev.rt ELSE ev.t) + Max(ev.wait, 0))
+            \* A pacer that takes time to answer logs the instant it returned (rt).  Whether the wait it returned counts from
+            \* the elapsed time it was given or from the moment it answered, the statement does not say: a hit must not start
+            \* before the earlier of the two (lo), and is due at the later (hi) - both readings are accepted
+            /\ wake' = Append(wake, [lo |-> ev.t + Max(ev.wait, 0), hi |-> (IF "rt" \in DOMAIN ev THEN ev.rt ELSE ev.t) + Max(ev.wait, 0)])
             /\ UNCHANGED pacerStop
     /\ UNCHANGED <<cfg, targ, targErr, entered, exited, recvd, trying, closed, pending, stopCalls, stopTrue>>
 
@@ -100,7 +102,7 @@ PaceUpd(ev) ==
 \* C03 Cap (with the one-event slack of a receive whose Recv is not logged yet)
 TargeterGuard(ev) ==
     /\ ev.k = targ + 1
-    /\ (On("C04") => ev.k <= paceOK /\ ev.t >= wake[ev.k])
+    /\ (On("C04") => ev.k <= paceOK /\ ev.t >= wake[ev.k].lo)
     /\ (On("C03") => WithinCap(targ + 1 - Cardinality(recvd) - (IF trying THEN 1 ELSE 0)))
     /\ (On("C02") => ~closed)
 
@@ -213,11 +215,11 @@ QuiesceGuard(ev) ==
     /\ On("C03") =>
         /\ paceOK - targ <= 1
         /\ WithinCap(InFlight)
-        /\ (paceOK - targ = 1 /\ wake[paceOK] <= ev.t /\ ~StopKnown /\ ~closed
+        /\ (paceOK - targ = 1 /\ wake[paceOK].hi <= ev.t /\ ~StopKnown /\ ~closed
                 => ~Unlimited /\ InFlight = cfg.maxw)
     /\ (On("C02") \/ On("C04")) =>
         (trying /\ InFlight = 0 /\ paces > 0 /\
-         (paceOK = targ \/ (paceOK = targ + 1 /\ StopKnown /\ wake[paceOK] <= ev.t))
+         (paceOK = targ \/ (paceOK = targ + 1 /\ StopKnown /\ wake[paceOK].hi <= ev.t))
             => FALSE)         \* a consumer still waiting here means the channel was not closed
     /\ (On("C02") => pending = {})
 
